@@ -99,8 +99,15 @@ def judge(col, polys, vals, valid, conn, tag="", lab=None, ncomp=None):
         # "w1" for the single-column code path)
         fails.append(("poly.%s%s%s%s" % (name, ".c%d" % conn if conn_specific else "", ".w1" if W == 1 else "", tag), msg))
 
-    if not isinstance(col, list) or not isinstance(polys, list) or len(col) != len(polys):
-        fail("structure", "column %r and polygons %r do not pair up" % (type(col), type(polys)))
+    # the container types of the two paired sequences are not part of the statement (list, tuple or ndarray are all fine)
+    try:
+        col = list(col)
+        polys = [list(rings) if isinstance(rings, (list, tuple)) else rings for rings in polys]
+    except TypeError:
+        fail("structure", "column %r and polygons %r are not sequences" % (type(col), type(polys)))
+        return fails
+    if len(col) != len(polys):
+        fail("structure", "column (%d values) and polygons (%d) do not pair up" % (len(col), len(polys)))
         return fails
     if lab is None:
         lab, ncomp = ff.components(vals, valid, conn)
